@@ -127,7 +127,7 @@ def direct_calls(EoN, G, I0, R0, rho):
     return calls
 
 
-def twice(A, name, fn, args, kwargs, cls, deterministic):
+def twice(A, name, fn, args, kwargs, cls, deterministic, edit=None):
     names = ["arg%d" % i for i in range(len(args))] + sorted(kwargs)
     objs = list(args) + [kwargs[k] for k in sorted(kwargs)]
     before = [mon.snap(o) for o in objs]
@@ -151,6 +151,31 @@ def twice(A, name, fn, args, kwargs, cls, deterministic):
         A.outcomes.add(hsh(outs[0]))
         if deterministic and outs[0] != outs[1]:
             A.add(V("C19", name, cls, "not_repeatable", "two calls of %s with the same arguments return different results" % name))
+    # "can be repeated" also after the caller has edited the graph object in between: a call must not remember anything
+    # about an argument object.  Add an edge in place, call; compare with the call on an independent deep copy of the
+    # edited graph; remove the edge again, call; compare with the very first answer.
+    if deterministic and len(outs) == 2 and not A.viol and args and isinstance(args[0], nx.Graph) and edit:
+        import copy
+        G = args[0]
+        u, v = edit
+        if not G.has_edge(u, v):
+            def run(a0):
+                random.seed(5); np.random.seed(5)
+                return repr(sig(fn(a0, *args[1:], **kwargs)))
+            try:
+                G.add_edge(u, v, w=0.9, weight=1.3)
+                try:
+                    o3 = run(G); o4 = run(copy.deepcopy(G))
+                finally:
+                    G.remove_edge(u, v)
+                o5 = run(G)
+            except Exception as e:
+                return          # (failures on the edited graph are not this check's business)
+            A.evals += 1
+            if o3 != o4:
+                A.add(V("C19", name, cls, "remembers_graph", "%s called again on the same graph object after edge %r was added in place differs from the call on an independent copy of the edited graph" % (name, (u, v))))
+            elif o5 != outs[0]:
+                A.add(V("C19", name, cls, "remembers_graph", "%s called on the same graph object after edge %r was added and removed again differs from its first answer" % (name, (u, v))))
 
 
 def run_spec(spec, props=("C19",)):
@@ -166,7 +191,7 @@ def run_spec(spec, props=("C19",)):
             if spec.get("only") and name not in spec["only"]:
                 continue
             B = Acc()
-            twice(B, name, fn, args, kw, "simulator", True)   # same seeds: identical results expected too
+            twice(B, name, fn, args, kw, "simulator", True, edit=spec.get("edit"))   # same seeds: identical results expected too
             A.evals += B.evals; A.states |= B.states; A.trans |= B.trans; A.nontrivial |= B.nontrivial; A.outcomes |= B.outcomes
             for v in B.viol:
                 A.add(v)
@@ -198,7 +223,7 @@ def run_spec(spec, props=("C19",)):
                         kw["transmission_weight"] = "w"; kw["recovery_weight"] = "rw"
                     args = (G, 0.4) if inf["discrete"] else (G, 0.6, 0.7)
                     B = Acc()
-                    twice(B, name + ("+full" if full else ""), f, args, kw, "wrapper:" + icname, True)
+                    twice(B, name + ("+full" if full else ""), f, args, kw, "wrapper:" + icname, True, edit=spec.get("edit"))
                     A.evals += B.evals; A.states |= B.states; A.trans |= B.trans; A.nontrivial |= B.nontrivial; A.outcomes |= B.outcomes
                     for v in B.viol:
                         if "raises" in v["key"]:
@@ -224,8 +249,10 @@ def specs(tier):
     if thorough:
         gs = [(n, es) for n, es in gr.small_graphs(3) if es] + [(4, es) for es in gr.shapes(4) if es] + [gr.NAMED["bull"]]
     for n, es in gs:
-        out.append(dict(kind="sim", n=n, edges=es))
+        nonedges = [(u, v) for u in range(n) for v in range(u + 1, n) if (u, v) not in [tuple(sorted(e)) for e in es]]
+        ed = list(nonedges[0]) if nonedges else None
+        out.append(dict(kind="sim", n=n, edges=es, edit=ed))
         for (I0, R0) in (([0], [n - 1]), ([0, 1], []), ([1], [])):
-            out.append(dict(kind="wrappers", n=n, edges=es, I0=I0, R0=R0))
+            out.append(dict(kind="wrappers", n=n, edges=es, I0=I0, R0=R0, edit=ed))
             out.append(dict(kind="direct", n=n, edges=es, I0=I0, R0=R0))
     return out
